@@ -133,6 +133,7 @@ const (
 	opStall
 	opWait
 	opExitThread
+	opGoSlot
 )
 
 type pendingOp struct {
@@ -335,6 +336,9 @@ func (s *Sim) describe(t *thread) BlockedRec {
 		b.Detail = t.op.prov
 	case opStart:
 		b.Op = "start"
+	case opGoSlot:
+		b.Op = "go-slot"
+		b.Detail = "eg.Go blocked by SetLimit"
 	default:
 		b.Op = "other"
 	}
@@ -473,6 +477,8 @@ func (s *Sim) enabled(t *thread) bool {
 			}
 		}
 		return true
+	case opGoSlot:
+		return t.op.group.active() < t.op.group.limit
 	}
 	return false
 }
@@ -1080,6 +1086,29 @@ type Group struct {
 	members []*thread
 	err     error
 	n       int
+	limit   int // SetLimit: maximum number of live goroutines (0 = unlimited)
+}
+
+func (g *Group) active() int {
+	n := 0
+	for _, m := range g.members {
+		if !m.exited {
+			n++
+		}
+	}
+	return n
+}
+
+// SetLimit follows x/sync: Go blocks while limit goroutines are live.
+func (g *Group) SetLimit(n int) { g.limit = n }
+
+// TryGo starts f only if a slot is free.
+func (g *Group) TryGo(f func() error) bool {
+	if g.limit > 0 && g.active() >= g.limit {
+		return false
+	}
+	g.Go(f)
+	return true
 }
 
 // NewGroup backs errgroup.WithContext (ctx may be nil for a zero Group).
@@ -1100,6 +1129,10 @@ func NewGroup(parent context.Context, withCtx bool) (*Group, context.Context) {
 
 func (g *Group) Go(f func() error) {
 	s := S
+	if g.limit > 0 && g.active() >= g.limit {
+		s.res.Probes["eg_go_blocked_by_limit"]++
+		s.yield(pendingOp{kind: opGoSlot, group: g})
+	}
 	g.n++
 	var t *thread
 	t = s.spawn(fmt.Sprintf("eg.Go#%d", g.n), g, func() {
